@@ -310,11 +310,11 @@ precedence = {
     "sub": 3,
     "binary_not": 4,
     "binary_and": 4,
-    "binary_or": 4,
+    "binary_or": 4.5,
     "gte": 5,
     "lte": 5,
     "lt": 5,
-    "gt": 6,
+    "gt": 5,
     "eq": 7,
     "regexp": 7,
     "not_regexp": 7,
